@@ -8,7 +8,7 @@ import Operon.Model.Telomere
   use k                                                  select slot k (constructed now with the case's cfg if empty)
   tickd | tickk c | renewd | renewk n|none r | apor      other call forms (bare call = defaults read from the signatures)
   tickb | ticki c | renewi n r                           tick(True), tick(IntSubclass(c)), renew(IntSubclass(n), int r)
-  set thr n | set allow b | set life q|none | set idle q|none   public configuration attribute re-assigned
+  set thr n | set allow b | set life q|none | set idle q|none | set max n   public configuration attribute re-assigned
   many n <op>                                            the op n times (1..3000), last observation printed
   race j <opA> | <opB>                                   two overlapping calls (thread A held back before its j-th lock acquisition
                                                           while B runs): ret `retA/retB`, events and lock trace tagged a/b
@@ -96,6 +96,7 @@ def parseOp : List String → Option Op
 def parseSet (what v : String) : Option (Cfg → Cfg) :=
   match what with
   | "thr" => v.toNat?.map fun n => fun c => { c with errThr := n }
+  | "max" => v.toNat?.map fun n => fun c => { c with maxOps := n }
   | "allow" => v.toNat?.map fun _ => fun c => { c with allowRenew := v = "1" }
   | "life" => if v = "none" then some fun c => { c with life := none } else v.toNat?.map fun _ => fun c => { c with life := optQ v 900000000 }
   | "idle" => if v = "none" then some fun c => { c with idle := none } else v.toNat?.map fun _ => fun c => { c with idle := optQ v 15000000 }
